@@ -24,34 +24,87 @@ static size_t arity(const Gate &g) {
     return (g.flags & GATE_TARGETS_PAIRS) ? 2 : 1;
 }
 
+// A table extracted from one compiled routine: its rows are images (text "+XZ"; unsigned rows have no phase char)
+// of the local Paulis listed in `inputs`, and `ref` names the gate whose documented action the rows must equal.
+struct Tab {
+    std::string name;   // Lean identifier
+    std::string ref;    // gate whose table is the specification
+    size_t k;           // arity
+    bool full;          // rows for all 4^k local Paulis (else: generators X0,Z0,X1,Z1)
+    bool neg;           // inputs carry a minus sign
+    bool is_signed;     // rows carry a sign
+    std::vector<std::string> rows;
+};
+
 template <size_t W>
-static std::string ps_lean(const PauliStringRef<W> &p, size_t n) {
-    std::string s = "⟨";
-    s += p.sign ? "2" : "0";
-    s += ", [";
-    for (size_t j = 0; j < n; j++) {
-        if (j) s += ", ";
-        s += letter(p.xs[j], p.zs[j]);
-    }
-    s += "]⟩";
+static std::string ps_txt(const PauliStringRef<W> &p, size_t n, bool with_sign) {
+    std::string s = with_sign ? (p.sign ? "-" : "+") : "";
+    for (size_t j = 0; j < n; j++) s.push_back("_XZY"[p.xs[j] + 2 * p.zs[j]]);
     return s;
 }
-template <size_t W>
-static std::string gens_lean(const Tableau<W> &t) {
-    std::string s = "[";
-    for (size_t q = 0; q < t.num_qubits; q++)
-        for (int xz = 0; xz < 2; xz++) {
-            PauliStringRef<W> p = xz == 0 ? t.xs[q] : t.zs[q];
-            if (q || xz) s += ", ";
-            s += std::string("(") + (p.sign ? "true" : "false") + ", [";
-            for (size_t j = 0; j < t.num_qubits; j++) {
-                if (j) s += ", ";
-                s += letter(p.xs[j], p.zs[j]);
-            }
-            s += "])";
-        }
-    s += "]";
+static std::string input_txt(const Tab &t, size_t row) {
+    std::string s = t.neg ? "-" : "+";
+    if (t.full) {
+        for (size_t j = 0; j < t.k; j++) s.push_back("_XYZ"[(row >> (2 * j)) & 3]);
+    } else {
+        for (size_t j = 0; j < t.k; j++) s.push_back(j == row / 2 ? (row % 2 ? 'Z' : 'X') : '_');
+    }
     return s;
+}
+static std::string row_lean_ps(const std::string &r) {  // "+XZ" -> ⟨0, [.X, .Z]⟩
+    std::string s = "⟨";
+    s += r[0] == '-' ? "2" : "0";
+    s += ", [";
+    for (size_t j = 1; j < r.size(); j++) {
+        if (j > 1) s += ", ";
+        s += r[j] == '_' ? ".I" : std::string(".") + r[j];
+    }
+    return s + "]⟩";
+}
+static std::string row_lean_letters(const std::string &r, size_t from) {
+    std::string s = "[";
+    for (size_t j = from; j < r.size(); j++) {
+        if (j > from) s += ", ";
+        s += r[j] == '_' ? ".I" : std::string(".") + r[j];
+    }
+    return s + "]";
+}
+static void emit_lean(const Tab &t, std::ostringstream &d, std::ostringstream &th) {
+    if (t.full && t.is_signed) {
+        d << "def " << t.name << " : List PS := [";
+        for (size_t i = 0; i < t.rows.size(); i++) d << (i ? ", " : "") << row_lean_ps(t.rows[i]);
+        d << "]\n";
+        th << "theorem " << t.name << "_ok : " << t.name << " = " << (t.neg ? "negTab (" : "(") << "fullTab " << t.k << " g_" << t.ref << ".tab) := by decide\n";
+    } else if (t.full) {
+        d << "def " << t.name << " : List (List P1) := [";
+        for (size_t i = 0; i < t.rows.size(); i++) d << (i ? ", " : "") << row_lean_letters(t.rows[i], 0);
+        d << "]\n";
+        th << "theorem " << t.name << "_ok : " << t.name << " = (fullTab " << t.k << " g_" << t.ref << ".tab).map PS.ps := by decide\n";
+    } else if (t.is_signed) {
+        d << "def " << t.name << " : List (Bool × List P1) := [";
+        for (size_t i = 0; i < t.rows.size(); i++)
+            d << (i ? ", " : "") << "(" << (t.rows[i][0] == '-' ? "true" : "false") << ", " << row_lean_letters(t.rows[i], 1) << ")";
+        d << "]\n";
+        th << "theorem " << t.name << "_ok : " << t.name << " = g_" << t.ref << ".tab := by decide\n";
+    } else {
+        d << "def " << t.name << " : List (List P1) := [";
+        for (size_t i = 0; i < t.rows.size(); i++) d << (i ? ", " : "") << row_lean_letters(t.rows[i], 0);
+        d << "]\n";
+        th << "theorem " << t.name << "_ok : " << t.name << " = g_" << t.ref << ".tab.map Prod.snd := by decide\n";
+    }
+}
+// the same rows as request/answer pairs for the Lean driver (this is what names the failing input of a broken obligation)
+static void emit_qa(const Tab &t) {
+    for (size_t i = 0; i < t.rows.size(); i++) {
+        vh::out_case(i, t.name + " input " + input_txt(t, i));
+        vh::out_q(std::string("gate ") + (t.is_signed ? "act " : "actu ") + t.ref + " " + input_txt(t, i), t.rows[i]);
+    }
+}
+
+static std::vector<GateTarget> first_targets(size_t k) {
+    std::vector<GateTarget> targets;
+    for (size_t j = 0; j < k; j++) targets.push_back(GateTarget::qubit(j));
+    return targets;
 }
 
 // local Pauli number idx (first target varies fastest; I X Y Z = 0 1 2 3) on k qubits
@@ -68,58 +121,61 @@ static PauliString<W> local_pauli(size_t k, size_t idx, bool sign) {
 }
 
 template <size_t W>
-static void dump_pauliref(std::ostringstream &d, std::ostringstream &t) {
+static std::vector<std::string> gens_rows(const Tableau<W> &t) {
+    std::vector<std::string> r;
+    for (size_t q = 0; q < t.num_qubits; q++)
+        for (int xz = 0; xz < 2; xz++) {
+            PauliStringRef<W> p = xz == 0 ? t.xs[q] : t.zs[q];
+            r.push_back(ps_txt<W>(p, t.num_qubits, true));
+        }
+    return r;
+}
+
+template <size_t W>
+static void collect_pauliref(std::vector<Tab> &out) {
     for (size_t gi = 1; gi < NUM_DEFINED_GATES; gi++) {
         const Gate &g = GATE_DATA.items[gi];
         if (g.id == GateType::NOT_A_GATE || !has_table(g)) continue;
         size_t k = arity(g);
-        std::vector<GateTarget> targets;
-        for (size_t j = 0; j < k; j++) targets.push_back(GateTarget::qubit(j));
+        auto targets = first_targets(k);
         CircuitInstruction inst(g.id, {}, targets, "");
         for (int undo = 0; undo < 2; undo++)
             for (int sign = 0; sign < 2; sign++) {
-                std::string nm = std::string("pref_") + (undo ? "undo" : "do") + (sign ? "_neg_" : "_pos_") + std::to_string(W) + "_" + std::string(g.name);
-                d << "def " << nm << " : List PS := [";
+                Tab t{std::string("pref_") + (undo ? "undo" : "do") + (sign ? "_neg_" : "_pos_") + std::to_string(W) + "_" + std::string(g.name),
+                      std::string(undo ? GATE_DATA[g.best_candidate_inverse_id].name : g.name), k, true, (bool)sign, true, {}};
                 for (size_t idx = 0; idx < (1u << (2 * k)); idx++) {
                     auto p = local_pauli<W>(k, idx, sign);
                     if (undo) p.ref().undo_instruction(inst);
                     else p.ref().do_instruction(inst);
-                    if (idx) d << ", ";
-                    d << ps_lean<W>(p.ref(), k);
+                    t.rows.push_back(ps_txt<W>(p.ref(), k, true));
                 }
-                d << "]\n";
-                const Gate &ref = undo ? GATE_DATA[g.best_candidate_inverse_id] : g;
-                t << "theorem " << nm << "_ok : " << nm << " = " << (sign ? "negTab (" : "(") << "fullTab " << k << " g_" << ref.name
-                  << ".tab) := by decide\n";
+                out.push_back(t);
             }
     }
 }
 
 template <size_t W>
-static void dump_tsim(std::ostringstream &d, std::ostringstream &t) {
+static void collect_tsim(std::vector<Tab> &out) {
     for (size_t gi = 1; gi < NUM_DEFINED_GATES; gi++) {
         const Gate &g = GATE_DATA.items[gi];
         if (g.id == GateType::NOT_A_GATE || !has_table(g)) continue;
         size_t k = arity(g);
-        std::vector<GateTarget> targets;
-        for (size_t j = 0; j < k; j++) targets.push_back(GateTarget::qubit(j));
+        auto targets = first_targets(k);
         CircuitInstruction inst(g.id, {}, targets, "");
         TableauSimulator<W> sim(std::mt19937_64(0), k);
         sim.do_gate(inst);
-        std::string nm = "tsim_inv_" + std::to_string(W) + "_" + std::string(g.name);
-        d << "def " << nm << " : List (Bool × List P1) := " << gens_lean<W>(sim.inv_state) << "\n";
-        t << "theorem " << nm << "_ok : " << nm << " = g_" << GATE_DATA[g.best_candidate_inverse_id].name << ".tab := by decide\n";
+        out.push_back(Tab{"tsim_inv_" + std::to_string(W) + "_" + std::string(g.name), std::string(GATE_DATA[g.best_candidate_inverse_id].name), k, false, false, true,
+                          gens_rows<W>(sim.inv_state)});
     }
 }
 
 template <size_t W>
-static void dump_frame(std::ostringstream &d, std::ostringstream &t) {
+static void collect_frame(std::vector<Tab> &out) {
     for (size_t gi = 1; gi < NUM_DEFINED_GATES; gi++) {
         const Gate &g = GATE_DATA.items[gi];
         if (g.id == GateType::NOT_A_GATE || !has_table(g)) continue;
         size_t k = arity(g);
-        std::vector<GateTarget> targets;
-        for (size_t j = 0; j < k; j++) targets.push_back(GateTarget::qubit(j));
+        auto targets = first_targets(k);
         CircuitInstruction inst(g.id, {}, targets, "");
         CircuitStats st;
         st.num_qubits = k;
@@ -135,29 +191,22 @@ static void dump_frame(std::ostringstream &d, std::ostringstream &t) {
                 sim.z_table[j][idx] = (l == 2 || l == 3);
             }
         sim.do_gate(inst);
-        std::string nm = "frame_" + std::to_string(W) + "_" + std::string(g.name);
-        d << "def " << nm << " : List (List P1) := [";
+        Tab t{"frame_" + std::to_string(W) + "_" + std::string(g.name), std::string(g.name), k, true, false, false, {}};
         for (size_t idx = 0; idx < shots; idx++) {
-            if (idx) d << ", ";
-            d << "[";
-            for (size_t j = 0; j < k; j++) {
-                if (j) d << ", ";
-                d << letter(sim.x_table[j][idx], sim.z_table[j][idx]);
-            }
-            d << "]";
+            std::string r;
+            for (size_t j = 0; j < k; j++) r.push_back("_XZY"[(bool)sim.x_table[j][idx] + 2 * (bool)sim.z_table[j][idx]]);
+            t.rows.push_back(r);
         }
-        d << "]\n";
-        t << "theorem " << nm << "_ok : " << nm << " = (fullTab " << k << " g_" << g.name << ".tab).map PS.ps := by decide\n";
+        out.push_back(t);
     }
 }
 
-static void dump_rev(std::ostringstream &d, std::ostringstream &t) {
+static void collect_rev(std::vector<Tab> &out) {
     for (size_t gi = 1; gi < NUM_DEFINED_GATES; gi++) {
         const Gate &g = GATE_DATA.items[gi];
         if (g.id == GateType::NOT_A_GATE || !has_table(g)) continue;
         size_t k = arity(g);
-        std::vector<GateTarget> targets;
-        for (size_t j = 0; j < k; j++) targets.push_back(GateTarget::qubit(j));
+        auto targets = first_targets(k);
         CircuitInstruction inst(g.id, {}, targets, "");
         SparseUnsignedRevFrameTracker tr(k, 0, 2 * k, false);
         for (size_t j = 0; j < k; j++) {
@@ -167,21 +216,15 @@ static void dump_rev(std::ostringstream &d, std::ostringstream &t) {
         tr.undo_gate(inst);
         // The tracker holds, per qubit, the detectors whose back-propagated Pauli region has an X (xs) / Z (zs) there.
         // Detector 2j started as X_j, detector 2j+1 as Z_j; after undo_gate its region is G^-1(X_j) resp. G^-1(Z_j).
-        std::string nm = "rev_" + std::string(g.name);
-        d << "def " << nm << " : List (List P1) := [";
+        Tab t{"rev_" + std::string(g.name), std::string(GATE_DATA[g.best_candidate_inverse_id].name), k, false, false, false, {}};
         for (size_t j = 0; j < k; j++)
             for (int xz = 0; xz < 2; xz++) {
                 DemTarget det = DemTarget::relative_detector_id(2 * j + xz);
-                if (j || xz) d << ", ";
-                d << "[";
-                for (size_t q = 0; q < k; q++) {
-                    if (q) d << ", ";
-                    d << letter(tr.xs[q].contains(det), tr.zs[q].contains(det));
-                }
-                d << "]";
+                std::string r;
+                for (size_t q = 0; q < k; q++) r.push_back("_XZY"[tr.xs[q].contains(det) + 2 * tr.zs[q].contains(det)]);
+                t.rows.push_back(r);
             }
-        d << "]\n";
-        t << "theorem " << nm << "_ok : " << nm << " = g_" << GATE_DATA[g.best_candidate_inverse_id].name << ".tab.map Prod.snd := by decide\n";
+        out.push_back(t);
     }
 }
 
@@ -198,7 +241,7 @@ struct NamedOp {
     void (*f)(Tableau<W> &);
 };
 template <size_t W>
-static void dump_prepend(std::ostringstream &d, std::ostringstream &t) {
+static void collect_prepend(std::vector<Tab> &out) {
     std::vector<NamedOp<W>> ops = {
         PREPEND2(SWAP, "SWAP"), PREPEND1(X, "X"), PREPEND1(Y, "Y"), PREPEND1(Z, "Z"), PREPEND1(H_XZ, "H"), PREPEND1(H_YZ, "H_YZ"),
         PREPEND1(H_XY, "H_XY"), PREPEND1(H_NXY, "H_NXY"), PREPEND1(H_NXZ, "H_NXZ"), PREPEND1(H_NYZ, "H_NYZ"), PREPEND1(C_XYZ, "C_XYZ"),
@@ -213,9 +256,7 @@ static void dump_prepend(std::ostringstream &d, std::ostringstream &t) {
     for (auto &op : ops) {
         Tableau<W> tab(op.k);
         op.f(tab);
-        std::string nm = "prepend_" + std::to_string(W) + "_" + op.name;
-        d << "def " << nm << " : List (Bool × List P1) := " << gens_lean<W>(tab) << "\n";
-        t << "theorem " << nm << "_ok : " << nm << " = g_" << op.gate << ".tab := by decide\n";
+        out.push_back(Tab{"prepend_" + std::to_string(W) + "_" + op.name, op.gate, op.k, false, false, true, gens_rows<W>(tab)});
     }
     std::vector<NamedOp<W>> tops = {
         TAPPEND1(H_XZ, "H"), TAPPEND1(H_XY, "H_XY"), TAPPEND1(H_YZ, "H_YZ"), TAPPEND1(S, "S"), TAPPEND2(ZCX, "CX"),
@@ -224,9 +265,7 @@ static void dump_prepend(std::ostringstream &d, std::ostringstream &t) {
     for (auto &op : tops) {
         Tableau<W> tab(op.k);
         op.f(tab);
-        std::string nm = "tappend_" + std::to_string(W) + "_" + op.name;
-        d << "def " << nm << " : List (Bool × List P1) := " << gens_lean<W>(tab) << "\n";
-        t << "theorem " << nm << "_ok : " << nm << " = g_" << op.gate << ".tab := by decide\n";
+        out.push_back(Tab{"tappend_" + std::to_string(W) + "_" + op.name, op.gate, op.k, false, false, true, gens_rows<W>(tab)});
     }
     // generic scatter paths with every gate's own tableau
     for (size_t gi = 1; gi < NUM_DEFINED_GATES; gi++) {
@@ -239,11 +278,53 @@ static void dump_prepend(std::ostringstream &d, std::ostringstream &t) {
             Tableau<W> tab(k);
             if (app) tab.inplace_scatter_append(g.tableau<W>(), tg);
             else tab.inplace_scatter_prepend(g.tableau<W>(), tg);
-            std::string nm = std::string(app ? "scatter_append_" : "scatter_prepend_") + std::to_string(W) + "_" + std::string(g.name);
-            d << "def " << nm << " : List (Bool × List P1) := " << gens_lean<W>(tab) << "\n";
-            t << "theorem " << nm << "_ok : " << nm << " = g_" << g.name << ".tab := by decide\n";
+            out.push_back(Tab{std::string(app ? "scatter_append_" : "scatter_prepend_") + std::to_string(W) + "_" + std::string(g.name), std::string(g.name), k, false, false, true,
+                              gens_rows<W>(tab)});
         }
     }
+}
+
+struct Family {
+    const char *file;
+    std::vector<Tab> tabs;
+};
+static std::vector<Family> collect_all() {
+    std::vector<Family> f(5);
+    f[0].file = "PauliRef";
+    collect_pauliref<64>(f[0].tabs);
+    collect_pauliref<128>(f[0].tabs);
+    collect_pauliref<256>(f[0].tabs);
+    f[1].file = "TSim";
+    collect_tsim<64>(f[1].tabs);
+    collect_tsim<128>(f[1].tabs);
+    collect_tsim<256>(f[1].tabs);
+    f[2].file = "Prepend";
+    collect_prepend<64>(f[2].tabs);
+    collect_prepend<128>(f[2].tabs);
+    collect_prepend<256>(f[2].tabs);
+    f[3].file = "Frame";
+    collect_frame<64>(f[3].tabs);
+    collect_frame<128>(f[3].tabs);
+    collect_frame<256>(f[3].tabs);
+    f[4].file = "Rev";
+    collect_rev(f[4].tabs);
+    return f;
+}
+
+// `vh gatetab [family]`: every row of every extracted table as a request/answer pair
+VH_AREA(gatetab) {
+    auto fams = collect_all();
+    vh::Stats st;
+    for (auto &f : fams) {
+        if (!a.rest.empty() && a.rest[0] != f.file) continue;
+        for (auto &t : f.tabs) {
+            emit_qa(t);
+            st.hit(std::string("rows.") + f.file, t.rows.size());
+            st.hit(std::string("tables.") + f.file);
+        }
+    }
+    st.dump();
+    return 0;
 }
 
 VH_AREA(tables) {
@@ -293,7 +374,11 @@ VH_AREA(tables) {
             }
             mat << "]";
             tab.str("");
-            tab << gens_lean<64>(g.tableau<64>());
+            auto rows = gens_rows<64>(g.tableau<64>());
+            tab << "[";
+            for (size_t i = 0; i < rows.size(); i++)
+                tab << (i ? ", " : "") << "(" << (rows[i][0] == '-' ? "true" : "false") << ", " << row_lean_letters(rows[i], 1) << ")";
+            tab << "]";
         }
         gt << "def g_" << nm << " : GateRow := { name := \"" << nm << "\", id := " << (int)g.id << ", flags := " << (int)g.flags
            << ", argCount := " << (int)g.arg_count << ", inverse := " << (int)g.best_candidate_inverse_id << ", s2 := " << scale2
@@ -323,46 +408,17 @@ VH_AREA(tables) {
     gt << "]\n\nend Stim.Gen\n";
     gth << "\nend Stim.Gen\n";
 
-    std::ostringstream pd, pt, td, tt, fd, ft, rd, rt, qd, qt;
-    auto hdr = [](std::ostringstream &o, const char *imp) {
-        o << "import " << imp << "\n/-! GENERATED by `vh tables` by executing the compiled routines on their whole local domain. -/\nnamespace Stim.Gen\nopen Stim\n\n";
-    };
-    hdr(pd, "StimModel.Generated.GateTable");
-    hdr(pt, "StimModel.Generated.PauliRefTable");
-    dump_pauliref<64>(pd, pt);
-    dump_pauliref<128>(pd, pt);
-    dump_pauliref<256>(pd, pt);
-    hdr(td, "StimModel.Generated.GateTable");
-    hdr(tt, "StimModel.Generated.TSimTable");
-    dump_tsim<64>(td, tt);
-    dump_tsim<128>(td, tt);
-    dump_tsim<256>(td, tt);
-    hdr(qd, "StimModel.Generated.GateTable");
-    hdr(qt, "StimModel.Generated.PrependTable");
-    dump_prepend<64>(qd, qt);
-    dump_prepend<128>(qd, qt);
-    dump_prepend<256>(qd, qt);
-    hdr(fd, "StimModel.Generated.GateTable");
-    hdr(ft, "StimModel.Generated.FrameTable");
-    dump_frame<64>(fd, ft);
-    dump_frame<128>(fd, ft);
-    dump_frame<256>(fd, ft);
-    hdr(rd, "StimModel.Generated.GateTable");
-    hdr(rt, "StimModel.Generated.RevTable");
-    dump_rev(rd, rt);
-    for (auto *o : {&pd, &pt, &td, &tt, &fd, &ft, &rd, &rt, &qd, &qt}) *o << "\nend Stim.Gen\n";
-
     printf("=== FILE GateTable.lean ===\n%s", gt.str().c_str());
     printf("=== FILE GateThms.lean ===\n%s", gth.str().c_str());
-    printf("=== FILE PauliRefTable.lean ===\n%s", pd.str().c_str());
-    printf("=== FILE PauliRefThms.lean ===\n%s", pt.str().c_str());
-    printf("=== FILE TSimTable.lean ===\n%s", td.str().c_str());
-    printf("=== FILE TSimThms.lean ===\n%s", tt.str().c_str());
-    printf("=== FILE PrependTable.lean ===\n%s", qd.str().c_str());
-    printf("=== FILE PrependThms.lean ===\n%s", qt.str().c_str());
-    printf("=== FILE FrameTable.lean ===\n%s", fd.str().c_str());
-    printf("=== FILE FrameThms.lean ===\n%s", ft.str().c_str());
-    printf("=== FILE RevTable.lean ===\n%s", rd.str().c_str());
-    printf("=== FILE RevThms.lean ===\n%s", rt.str().c_str());
+    for (auto &f : collect_all()) {
+        std::ostringstream d, t;
+        d << "import StimModel.Generated.GateTable\n/-! GENERATED by `vh tables` by executing the compiled routines on their whole local domain. -/\nnamespace Stim.Gen\nopen Stim\n\n";
+        t << "import StimModel.Generated." << f.file << "Table\n/-! GENERATED: one kernel-checked obligation per extracted table. -/\nnamespace Stim.Gen\nopen Stim\n\n";
+        for (auto &tab : f.tabs) emit_lean(tab, d, t);
+        d << "\nend Stim.Gen\n";
+        t << "\nend Stim.Gen\n";
+        printf("=== FILE %sTable.lean ===\n%s", f.file, d.str().c_str());
+        printf("=== FILE %sThms.lean ===\n%s", f.file, t.str().c_str());
+    }
     return 0;
 }
